@@ -85,6 +85,11 @@ CHECKS = {
         technique="translation validation under a TLA+ operational semantics (Machine.tla gives scf.if/for/while and cf their own semantics); before/after programs of the real lowering / loop passes executed by TLC",
         text="Generated programs with nested scf.for/scf.if, an exhaustive family of constant-bound loops (lb -2..3, ub -1..5, step 1..3), loop nests with used/unused induction variables and effects in the body, and range-folding shapes with constant and symbolic factors are run through convert-scf-to-cf, scf-for-loop-range-folding, scf-for-loop-flatten, licm and control-flow-hoist; TLC executes before/after on boundary/random inputs and compares results and the ordered effect log.",
         note="Trusted: Machine.tla. lower-affine, scf-for-loop-unroll and frontend-desymrefy are not exercised (no affine/symref program generator). One open finding (range folding with non-positive factor)."),
+    "C04": dict(
+        category="exploration", design_ref="DESIGN.md §3.2, §4 C04",
+        technique="TLA+ model of printer name allocation (Naming.tla, Injective checked by TLC over every hint assignment) replayed on real IR, and TLC-judged structural equivalence (IRIso.tla) of original and re-parsed IR on the joint projection",
+        text="Every assignment of the model's raw-hint alphabet to 4 values and every pair of block hints is applied to real IR, printed in generic form, parsed in a fresh context; TLC judges original ~ re-parsed (names, attributes, properties, types, successors, nesting, use-def incl. forward references); printing twice, printing the clone and re-printing the parse must give the same text. Same for generated test-dialect trees with random hints and forward references and for every parseable chunk of the repository's .mlir corpus.",
+        note="Trusted: IRIso.tla as the definition of structural equivalence; attribute values compared by Python == after re-parse. Five defects repaired (fix: commits), one open finding (dense_resource keys renamed by the process-global blob storage)."),
     "C19": dict(
         category="exploration", design_ref="DESIGN.md §3.7, §4 C19",
         technique="TLA+ register-file execution of allocated blocks (RegAlloc.tla: the register file remembers which value each register holds) evaluated by TLC on the assignments produced by the real allocators",
